@@ -19,12 +19,22 @@ def env : Env :=
     openPaths := ["/api/v1/login", "/api/v1/server", "/api/v1/runtime", "/api/v1/refreshtoken"].map String.toList,
     streamQueryPrefix := "/api/v1/streams".toList }
 
+/-- the monitor's view of a WSP control session: who opened it on which path, which data channel the
+    implementation attached, what the implementation said it is consuming -/
+structure SWsp where
+  conn : WsConn
+  data : Option WsConn := none
+  attached : Option (List Char) := none
+  deriving Repr
+
 structure St where
   w : World
   sw : SWorld
-  ws : List (Nat × WsConn) := []                       -- upgraded WebSocket connections
+  ws : List (Nat × WsConn) := []                       -- upgraded WebSocket connections (model's label)
+  wsSpec : List (Nat × WsConn) := []                   -- the same connections as the MONITOR labels them: path of the URL, user of the token
   rtsp : List (String × RtspSess × SSess) := []        -- RTSP sessions: "n<j>" plain, "w<j>" on ws conn j
   wsp : List (Nat × WspSess) := []
+  wspSpec : List (Nat × SWsp) := []                    -- the monitor's view of the WSP sessions (follows the implementation's outcomes)
   nRtsp : Nat := 0
   deriving Repr
 
@@ -182,7 +192,18 @@ def setRtsp (st : St) (k : String) (v : RtspSess × SSess) : St :=
 def stepOp (st : St) (tok : String) : St × String :=
   let (op, impl) := splitImpl tok
   let bad := (st, "bad-op")
-  match op.splitOn ":" with
+  -- an optional last field `H<hex>[,<hex>...]`: the values of the identity header `user_name_in_token`
+  -- (any spelling net/http maps to the same key) that the CLIENT sent; the monitor does not look at them
+  let fields := op.splitOn ":"
+  let (fields, hdr) : List String × Option (List (List Char)) := match fields.getLast? with
+    | some l => match l.toList with
+      | 'H' :: r => (fields.dropLast, ((String.ofList r).splitOn ",").mapM hexToChars)
+      | _ => (fields, some [])
+    | none => (fields, some [])
+  match hdr with
+  | none => bad
+  | some hdr =>
+  match fields with
   | ["auth", b] =>
     ({ st with w := { st.w with authOn := b = "1" }, sw := { st.sw with authOn := b = "1" } }, "ok~ok")
   | ["st", key] =>
@@ -237,7 +258,7 @@ def stepOp (st : St) (tok : String) : St × String :=
   | ["hs", m, path, tk] =>
     match parseHM m, hx path, parseTok tk with
     | some m, some p, some t =>
-      let (w', out) := httpStream cfg st.w m p t
+      let (w', out) := httpStreamH cfg st.w m p t hdr
       let v := match parseHttp impl with
         | some io => judgeHttp env st.sw p t io
         | none => .ok
@@ -248,7 +269,7 @@ def stepOp (st : St) (tok : String) : St × String :=
     | some p, some t =>
       let hm : HMethod := if m = "C" then .connect else if m = "G" then .get else .other
       let isGet := m = "G"
-      let (w', out) := apiGate cfg st.w hm isGet p t
+      let (w', out) := apiGateH cfg st.w hm isGet p t hdr
       let v := match implApi st p t impl with
         | some io => judgeApi env st.sw isGet p t io
         | none => .ok
@@ -258,7 +279,7 @@ def stepOp (st : St) (tok : String) : St × String :=
     match parseTok tk, userIn name admin push pull pw with
     | some t, some u =>
       let p := "/api/v1/users".toList
-      let (w', out) := apiGate cfg st.w .other false p t
+      let (w', out) := apiGateH cfg st.w .other false p t hdr
       let w' := match out with
         | .pass _ => { w' with users := saveUser cfg w'.users u (upd = "1") }
         | _ => w'
@@ -270,7 +291,7 @@ def stepOp (st : St) (tok : String) : St × String :=
     match parseTok tk, hx name with
     | some t, some n =>
       let p := "/api/v1/users/".toList ++ n
-      let (w', out) := apiGate cfg st.w .other false p t
+      let (w', out) := apiGateH cfg st.w .other false p t hdr
       let w' := match out with
         | .pass _ => { w' with users := delUser cfg w'.users n }
         | _ => w'
@@ -283,11 +304,13 @@ def stepOp (st : St) (tok : String) : St × String :=
       | "rtsp" => some .rtsp | "control" => some .control | "data" => some .data | "none" => some .none | _ => none
     match sub?, hx path, parseTok tk with
     | some sb, some p, some t =>
-      let (w', out) := wsUpgrade cfg st.w p t sb
-      let j := st.ws.length
+      let (w', out) := wsUpgradeH cfg st.w p t sb hdr
       let st1 := { st with w := w' }
-      -- the implementation's outcome, for the monitor
-      let cu : WsConn := { path := [], user := (who st.sw t).getD [] }
+      -- the connection as the monitor labels it: the stream path of the URL, the user of the token
+      let sp := match extractStreamPathAndExt p with | some (sp, _) => sp | none => []
+      let cu : WsConn := { path := sp, user := (who st.sw t).getD [] }
+      -- the implementation's outcome, for the monitor (the label of the connection is not disclosed:
+      -- a connection for an unauthenticated caller is the only thing the upgrade itself can show)
       let io : Option WsOut := match impl.splitOn "." with
         | ["301"] => some .redirect | ["xd"] => some .crossdomain | ["401"] => some .unauthorized
         | ["403"] => some .forbidden | ["panic"] => some .panic
@@ -295,19 +318,32 @@ def stepOp (st : St) (tok : String) : St × String :=
         | ["cl", _] => some (WsOut.closed cu)
         | ["fl", _, key] => (hx key).map (fun k => WsOut.serveFlv cu k)
         | _ => none
+      let implIdx : Option Nat := match impl.splitOn "." with
+        | ["up", j] => j.toNat? | ["cl", j] => j.toNat? | ["fl", j, _] => j.toNat? | _ => none
       let v := match io with | some io => judgeWs env st.sw p t io | none => .ok
-      match out with
-      | .upgraded c =>
-        let st2 := { st1 with ws := st1.ws ++ [(j, c)] }
-        let st2 := if sb = .rtsp then setRtsp st2 s!"w{j}" (newRtspSess st2.w (1000 + j) (some c), { resource := c.path }) else st2
-        (st2, s!"up.{j}~{showVerdict v}")
-      | .serveFlv c key => ({ st1 with ws := st1.ws ++ [(j, c)] }, s!"fl.{j}.{keyHex key}~{showVerdict v}")
-      | .closed c => ({ st1 with ws := st1.ws ++ [(j, c)] }, s!"cl.{j}~{showVerdict v}")
-      | .redirect => (st1, s!"301~{showVerdict v}")
-      | .crossdomain => (st1, s!"xd~{showVerdict v}")
-      | .unauthorized => (st1, s!"401~{showVerdict v}")
-      | .forbidden => (st1, s!"403~{showVerdict v}")
-      | .panic => (st1, s!"panic~{showVerdict v}")
+      let mconn : Option WsConn := match out with
+        | .upgraded c | .serveFlv c _ | .closed c => some c
+        | _ => none
+      -- index of the connection: the implementation's, so that later ops address the same connection
+      -- even after model and implementation disagreed about an upgrade
+      let j := implIdx.getD st.ws.length
+      let st2 := match mconn, implIdx with
+        | some c, _ => { st1 with ws := st1.ws ++ [(j, c)], wsSpec := st1.wsSpec ++ [(j, cu)] }
+        | none, some _ => { st1 with ws := st1.ws ++ [(j, cu)], wsSpec := st1.wsSpec ++ [(j, cu)] }
+        | none, none => st1
+      let sessConn : Option WsConn := match mconn, implIdx with
+        | some c, _ => some c
+        | none, some _ => some cu
+        | none, none => none
+      let st2 := match sessConn with
+        | some c => if sb = .rtsp then setRtsp st2 s!"w{j}" (newRtspSess st2.w (1000 + j) (some c), { resource := cu.path }) else st2
+        | none => st2
+      let shown := match out with
+        | .upgraded _ => s!"up.{j}"
+        | .serveFlv _ key => s!"fl.{j}.{keyHex key}"
+        | .closed _ => s!"cl.{j}"
+        | .redirect => "301" | .crossdomain => "xd" | .unauthorized => "401" | .forbidden => "403" | .panic => "panic"
+      (st2, s!"{shown}~{showVerdict v}")
     | _, _, _ => bad
   | ["ro", j] =>
     match j.toNat? with
@@ -323,48 +359,68 @@ def stepOp (st : St) (tok : String) : St × String :=
       let rq : RtspReq := { method := m, urlPath := u, cred := c, ctOk := ct = "1", sdpOk := sdp = "1", ctrl := ctl, tr := tr }
       let (w', s', out) := rtspStep cfg st.w s rq
       let io := parseRtsp impl
-      let v := match io with | some io => judgeRtsp env st.sw ss s.ws rq io | none => .ok
-      let ss' := match io with | some io => ss.step env s.ws rq io | none => ss
+      -- the monitor's label of the connection a WebSocket session runs on (never the model's)
+      let sws : Option WsConn := match k.toList with
+        | 'w' :: r => match (String.ofList r).toNat? with
+          | some j => (st.wsSpec.find? (·.1 = j)).map (·.2)
+          | none => none
+        | _ => none
+      let v := match io with | some io => judgeRtsp env st.sw ss sws rq io | none => .ok
+      let ss' := match io with | some io => ss.step env sws rq io | none => ss
       (setRtsp { st with w := w' } k (s', ss'), s!"{showRtsp out}~{showVerdict v}")
     | _, _, _, _, _, _ => bad
   | ["wc", j] =>
     match j.toNat? with
     | some j =>
-      match st.ws.find? (·.1 = j) with
-      | some (_, c) =>
+      match st.ws.find? (·.1 = j), st.wsSpec.find? (·.1 = j) with
+      | some (_, c), some (_, sc) =>
         let i := st.wsp.length
-        ({ st with wsp := st.wsp ++ [(i, { chan := i, conn := c })] }, s!"ch.{i}~ok")
-      | none => (st, "err~ok")
+        ({ st with wsp := st.wsp ++ [(i, { chan := i, conn := c })], wspSpec := st.wspSpec ++ [(i, { conn := sc })] }, s!"ch.{i}~ok")
+      | _, _ => (st, "err~ok")
     | none => bad
   | ["wd", j, ch] =>
     match j.toNat? with
     | some j =>
-      match st.ws.find? (·.1 = j) with
-      | some (_, dc) =>
+      match st.ws.find? (·.1 = j), st.wsSpec.find? (·.1 = j) with
+      | some (_, dc), some (_, sdc) =>
         let sess := match ch.toNat? with
           | some i => (st.wsp.find? (·.1 = i)).map (·.2)
           | none => none
+        let ssess : Option (Nat × SWsp) := match ch.toNat? with
+          | some i => st.wspSpec.find? (·.1 = i)
+          | none => none
         let (code, s') := wspJoin cfg st.w sess dc
         let v := match impl.toNat? with
-          | some ic => judgeJoin env st.sw (sess.map (fun s => (s.conn, s.attached))) dc ic
+          | some ic => judgeJoin env st.sw (ssess.map (fun s => (s.2.conn, s.2.attached))) sdc ic
           | none => .ok
         let st := match s' with
           | some s => { st with wsp := st.wsp.map (fun e => if e.1 = s.chan then (e.1, s) else e) }
           | none => st
+        -- the monitor's session follows what the implementation did
+        let st := match ssess, impl.toNat? with
+          | some (i, s), some 200 => { st with wspSpec := st.wspSpec.map (fun e => if e.1 = i then (i, { s with data := some sdc }) else e) }
+          | _, _ => st
         (st, s!"{code}~{showVerdict v}")
-      | none => (st, "err~ok")
+      | _, _ => (st, "err~ok")
     | none => bad
   | ["wr", i, m, ctrl, trok] =>
     match i.toNat?, parseMethod m, parseCtrl ctrl with
     | some i, some m, some ctl =>
-      match st.wsp.find? (·.1 = i) with
-      | some (_, s) =>
+      match st.wsp.find? (·.1 = i), st.wspSpec.find? (·.1 = i) with
+      | some (_, s), some (_, ss) =>
         let (s', out) := wspStep cfg st.w s m ctl (trok = "1")
-        let v := match parseRtsp impl with
-          | some io => judgeWsp env st.sw s.conn s.data io
+        let io := parseRtsp impl
+        let v := match io with
+          | some io => judgeWsp env st.sw ss.conn ss.data io
           | none => .ok
-        ({ st with wsp := st.wsp.map (fun e => if e.1 = i then (i, s') else e) }, s!"{showRtsp out}~{showVerdict v}")
-      | none => (st, "err~ok")
+        let ss' : SWsp := match io with
+          | some io => match io.eff with
+            | .play k => { ss with attached := some k }
+            | _ => ss
+          | none => ss
+        ({ st with wsp := st.wsp.map (fun e => if e.1 = i then (i, s') else e),
+                   wspSpec := st.wspSpec.map (fun e => if e.1 = i then (i, ss') else e) }, s!"{showRtsp out}~{showVerdict v}")
+      | _, _ => (st, "err~ok")
     | _, _, _ => bad
   | _ => bad
 
